@@ -578,3 +578,105 @@ V("legendre", ["I", "I"], o_jacobi, fix=lambda rng, a: [a[0], rng.choice(ODD_PRI
 for nm in VARIANTS:
     if nm.startswith(("pow", "dom_pow")) and "weight" not in VARIANTS[nm]:
         VARIANTS[nm]["weight"] = 0.5
+
+
+# ------------------------------------------------------------------ phase 3: modelled now (were oracle-only), sequences, template forms, init forms, config
+for _nm in ("fact", "swap", "size_in_base", "isperfectpower"):
+    VARIANTS[_nm].pop("oracle_only", None)
+
+
+def o_perfect_signed(a):
+    if a in (0, 1, -1):
+        return 1
+    return o_perfect(a)
+
+
+def fix_perfect_signed(rng, a):
+    a = fix_perfect(rng, a)
+    if rng.chance(1, 3):
+        a[0] = -a[0]
+    return a
+
+
+V("isperfectpower", ["I"], o_perfect_signed, fix=fix_perfect_signed)
+V("seq_acc_u64", ["I", "u64", "u64"], lambda x, a, b: x + a + b + a, nodecl=True)
+V("seq_acc_u64@fresh", ["u64", "u64"], lambda a, b: a + b + a, margs=lambda a, b: [0, a, b], nodecl=True)
+V("seq_addsub_u64", ["I", "u64"], lambda x, a: x, nodecl=True)
+V("seq_addsub_i64", ["I", "i64"], lambda x, a: x, nodecl=True)
+V("seq_mixed", ["I", "i64", "u64", "i32"], lambda x, a, b, c: -((x + a) * c - b) + 1 + a - b, nodecl=True)
+V("seq_mul_u64", ["I", "u64"], lambda x, a: x * a * a + a, nodecl=True)
+V("opPlusEq_T@d", ["I", "d"], lambda x, d: x + int(d), model="opPlusEq_Td")
+V("opMinusEq_T@d", ["I", "d"], lambda x, d: x - int(d), model="opMinusEq_Td")
+V("opMulEq_T@d", ["I", "d"], lambda x, d: x * int(d), model="opMulEq_Td")
+V("opPlusEq_T@u8", ["I", "u8"], lambda x, n: x + n, model="opPlusEq_Tu8")
+V("opMinusEq_T@u8", ["I", "u8"], lambda x, n: x - n, model="opMinusEq_Tu8")
+V("opMulEq_T@u8", ["I", "u8"], lambda x, n: x * n, model="opMulEq_Tu8")
+V("opMinusEq_T@u16", ["I", "u16"], lambda x, n: x - n)
+V("opMulEq_T@u16", ["I", "u16"], lambda x, n: x * n)
+for t in WT:
+    V("ctor_%s@init" % t, [t], lambda n: n)
+V("ctor_d@init", ["d"], lambda d: int(d))
+V("ctor_copy@init", ["I"], lambda n: n)
+# the build configuration the model's C-integer layer is written for (printed by the compiled harness, restated by the model)
+V("config", [], lambda: [64, 64, 64, 32, 8, 64, 8, 1, 1], gridcases=[[]], weight=0, nodecl=True)
+
+
+# ------------------------------------------------------------------ deterministic grid: domain restrictions / special lists
+# (the random `fix` functions above both aim at boundaries and keep the operands inside the operation's domain; the grid cases
+#  are not passed through them, so the domain part is restated here)
+from c01_table import special_list, BIG_SMALL, BIG_FULL, WORD_SPECIAL  # noqa: E402
+
+
+def _gd_alias(a):
+    a = list(a)
+    if a[4]:
+        a[0] = a[3]
+    return a
+
+
+def _gd_powmod(signed_e):
+    def dom(a):
+        n, e, m = a
+        if m == 0 or (e < 0 and (not signed_e or math.gcd(n, m) != 1)):
+            return None
+        return a
+    return dom
+
+
+def _gd_inv(a):
+    return a if a[1] != 0 and math.gcd(a[0], a[1]) == 1 else None
+
+
+def _gd_root(a):
+    return [abs(a[0]), a[1]] if a[1] % 2 == 0 else a
+
+
+_MOD_SPECIAL = [1, -1, 2, 3, -7, 2**31, 2**32 - 1, 2**63, -2**63, 2**64 - 1, -(2**64 - 1), 2**64, 2**61 - 1]
+for _nm, _sp in VARIANTS.items():
+    _b = _nm.split("@")[0]
+    if _b.startswith(("axpy_", "maxpy_", "axmy_")):
+        _sp["grid"] = [[-(10**30) - 7]] + [special_list(k, True) for k in _sp["args"][1:]]
+        _sp["griddom"] = _gd_alias
+    elif _b.startswith(("powmod", "dom_powmod")):
+        _sp["grid"] = [BIG_SMALL + [7, -7], special_list(_sp["args"][1], True), _MOD_SPECIAL]
+        _sp["griddom"] = _gd_powmod(_sp["args"][1] in ("pe_i32", "pe_i64"))
+    elif _b in ("inv3", "invin"):
+        _sp["grid"] = [BIG_FULL + [3, -3, 2**61 - 1, -(2**64 + 1)], _MOD_SPECIAL]
+        _sp["griddom"] = _gd_inv
+    elif _b == "dom_dxgcd":
+        _sp["griddom"] = lambda a: None if a[0] == 0 and a[1] == 0 else a
+    elif _b == "root":
+        _sp["griddom"] = _gd_root
+    elif _b == "logp":
+        _sp["grid"] = [special_list("N") + [2, 3, 4, 2**64 + 1, 2**128], [2, 3, 2**31, 2**32 - 1, 2**63, 2**64 - 1, 2**64]]
+    elif _b == "pp":
+        _sp["griddom"] = lambda a: a if a[0] != 0 else None
+    elif _b in ("jacobi", "kronecker"):
+        _sp["grid"] = [BIG_FULL + [2, -2, 3], [1, 3, 5, 9, 15, 2**31 - 1, 2**32 - 1, 2**63 - 1, 2**64 - 1, 2**64 + 1]]
+    elif _b == "legendre":
+        _sp["grid"] = [BIG_FULL + [2, -2, 3], ODD_PRIMES]
+    elif _b == "isperfectpower":
+        _sp["grid"] = [special_list("N") + [4, 8, 9, 2**62, 2**63 - 1, 3**40, 3**40 + 1]]
+    elif _b == "ctor_vect":
+        _L = [0, 1, 2**63, 2**64 - 1]
+        _sp["gridcases"] = [[]] + [[x] for x in _L] + [[x, y] for x in _L for y in _L] + [[x, y, z] for x in _L for y in _L for z in _L]
